@@ -154,6 +154,26 @@ Proof.
   destruct (bset_tok (u8 tk)) as [b'|]; [|discriminate]. apply N.eqb_eq in H2. subst b'. auto.
 Qed.
 
+Lemma N_list_eqb_eq a : forall b, N_list_eqb a b = true -> a = b.
+Proof.
+  induction a as [|x a IH]; intros [|y b] H; simpl in H; try discriminate H; try reflexivity.
+  apply andb_prop in H. destruct H as [H1 H2]. apply N.eqb_eq in H1. subst. f_equal. now apply IH.
+Qed.
+Lemma optN_list_eqb_eq a : forall b, optN_list_eqb a b = true -> a = b.
+Proof.
+  induction a as [|x a IH]; intros [|y b] H; simpl in H; try discriminate H; try reflexivity.
+  - destruct x; discriminate H.
+  - destruct x as [x|], y as [y|]; try discriminate H.
+    + apply andb_prop in H. destruct H as [H1 H2]. apply N.eqb_eq in H1. subst. f_equal. now apply IH.
+    + f_equal. now apply IH.
+Qed.
+Theorem stateless_sound : stateless_okb = true ->
+  get_after = seqN (lenN tokens) /\ bond_get_after = bond_get /\ bond_set_after = bond_set.
+Proof.
+  unfold stateless_okb. intros H. apply andb_prop in H. destruct H as [H H3]. apply andb_prop in H. destruct H as [H1 H2].
+  split; [now apply N_list_eqb_eq|]. split; [now apply N_list_eqb_eq|now apply optN_list_eqb_eq].
+Qed.
+
 Lemma triple_eqb_eq a b : triple_eqb a b = true -> a = b.
 Proof.
   destruct a as [[e t] g], b as [[e' t'] g']. unfold triple_eqb. intros H.
